@@ -374,6 +374,21 @@ def canonical(raw_steps):
 # --------------------------------------------------------------------------
 # expectations computed from the case alone (oracle side)
 # --------------------------------------------------------------------------
+def expected_files(case, step, i, imp):
+    """files one import statement of file i denotes in this step, from the layout alone"""
+    present = [j for j in range(len(case["files"])) if not step["files"][j].get("absent")]
+    if case["provider"] == "plain_search":
+        # first hit in [directory of the importer, d1, d2]
+        for p in [case["files"][i]["dir"], "d1", "d2"]:
+            full = os.path.normpath(os.path.join("/r", p, imp["pat"]))
+            for j in present:
+                f = case["files"][j]
+                if os.path.normpath(os.path.join("/r", f["dir"], f["base"])) == full:
+                    return [j]
+        return []
+    return [j for j in imp["expect"] if j in present]
+
+
 def active_imports(case, step, i):
     """Files the model of file i imports directly in this step, per statement
     (expected sets from the generator), or None for a statement that finds nothing.
@@ -383,7 +398,7 @@ def active_imports(case, step, i):
         return []
     out = []
     for imp in step_imports(case, step, i):
-        ex = [j for j in imp["expect"] if not step["files"][j].get("absent")]
+        ex = expected_files(case, step, i, imp)
         out.append(ex if ex else None)
     return out
 
@@ -754,7 +769,7 @@ def active_imports_any(case, step, i):
     """like active_imports but ignoring the RREL 'no references' rule (used while generating)"""
     out = []
     for imp in step_imports(case, step, i):
-        ex = [j for j in imp["expect"] if not step["files"][j].get("absent")]
+        ex = expected_files(case, step, i, imp)
         out.append(ex if ex else None)
     return out
 
